@@ -32,6 +32,7 @@ import (
 var ZZEntries = map[string]func([]int){
 	"HInline": func(a []int) { HInline(a[0], a[1]) },
 	"HCycle":  func(a []int) { HCycle(a[0]) },
+	"HExpand": func(a []int) { HExpand(a[0]) },
 }
 
 // ---- the documents -------------------------------------------------------------------------------
@@ -265,6 +266,10 @@ func fpParam(p *openapi.Parameter) string {
 	return p.Name + "|" + string(p.In) + "|" + string(p.Style) + "|" + strconv.FormatBool(p.Explode) + "|" + strconv.FormatBool(p.Required) + "|" + p.Description + "|" + fpSchema(p.Schema, 0)
 }
 
+// zzFpExamples: whether media-type examples are part of the fingerprint (parser.Expand does not carry examples
+// over - they are documentation, not behaviour - so the Expand round trip compares without them)
+var zzFpExamples = true
+
 func fpMedia(m map[string]*openapi.MediaType) string {
 	var keys []string
 	for k := range m {
@@ -281,6 +286,9 @@ func fpMedia(m map[string]*openapi.MediaType) string {
 		}
 		sort.Strings(ek)
 		for _, e := range ek {
+			if !zzFpExamples {
+				break
+			}
 			ex := mt.Examples[e]
 			if ex == nil {
 				out += ";" + e + "=nil"
@@ -416,3 +424,43 @@ func HCycle(kind int) {
 	zz.Cover("cycle-refused")
 	zz.Assert(err != nil, "a reference cycle (or dangling reference) between non-schema components is refused with an error")
 }
+
+
+// HExpand: the dereferenced spec ogen can emit (parser.Expand) parses back to an equivalent API: for a
+// symbolic keep/inline choice over the sites selected by `sites`, Parse -> Expand -> Parse gives the same
+// fingerprint as the first Parse. The document holds recursive and shared schemas, references into another
+// file, and same-named components in the two files.
+func HExpand(sites int) {
+	zzRootQ, zzExtQ = "Q", "Q"
+	zzFpExamples = false
+	defer func() { zzFpExamples = true }()
+	// the references into the other file are inlined (sites 0, 2, 3, 7): Expand refuses, with a located
+	// conflict error, documents in which two files contribute components of the same kind and name
+	mask := 1 | 4 | 8 | 128
+	for i := 0; i < 10; i++ {
+		if sites&(1<<i) != 0 && zz.Bool() {
+			mask |= 1 << i
+		}
+	}
+	zzDocs = zzExternal{"ext.json": zzExtDoc()}
+	zzNodes = map[*yaml.Node]*ogen.Spec{}
+	api, err := Parse(zzRoot(mask), Settings{External: zzDocs})
+	zz.Assert(err == nil, "the document is accepted (expand)")
+	if err != nil {
+		return
+	}
+	want := fpAPI(api)
+	spec2, err := Expand(api)
+	zz.Assert(err == nil, "Expand succeeds on a parsed API (also with recursive schemas)")
+	if err != nil {
+		return
+	}
+	api2, err := Parse(spec2, Settings{})
+	zz.Assert(err == nil, "the dereferenced spec parses")
+	if err != nil {
+		return
+	}
+	zz.Cover("expanded-and-reparsed")
+	zz.Assert(fpAPI(api2) == want, "the dereferenced spec parses back to an equivalent API")
+}
+
